@@ -513,11 +513,12 @@ fn list_formula_is_empty(
                 };
                 let new_len = std::cmp::max(prefix_items.len(), lt.prefix_items.len());
                 if prefix_items.len() < new_len {
-                    if lt.items.is_never() {
+                    // the tuples intersected so far are shorter: their own rest type fills the positions
+                    if items.is_never() {
                         return Ok(IsEmptyStatus::IsEmpty);
                     }
                     for _i in prefix_items.len()..new_len {
-                        prefix_items.push(lt.items.clone());
+                        prefix_items.push(items.clone());
                     }
                 }
                 for i in 0..lt.prefix_items.len() {
